@@ -804,3 +804,63 @@ def view_discipline(ctx, rule):
             ctx.check(rule, f"{f.site()}::reads-parent-through-selection", not problems, "the parent's per-experiment data is read at the selected rows only",
                       "; ".join(problems[:3]) + ": values of experiments outside the view (masked, or of other plates) reach whoever uses the view")
     ctx.need(n >= 15, f"view discipline: only {n} reads of the parent screen found in the view classes")
+
+
+
+# ---------------------------------------------------------------- links of a chain named one by one
+def fuse_chain_links(fnode):
+    """a = E; b = a[i].m()      (a bound once, read exactly once, in the very next statement, as the value of a subscript or the receiver
+    of an attribute / method; every call of that statement that does not contain the read is absent)  ->  b = E[i].m()
+    A method chain split into named intermediates is read as the chain.  Returns a rewritten copy (or the node itself if nothing applies)."""
+    import copy
+    node = copy.deepcopy(fnode)
+    stores, loads = {}, {}
+    for x in ast.walk(node):
+        if isinstance(x, ast.Name):
+            (stores if isinstance(x.ctx, (ast.Store, ast.Del)) else loads).setdefault(x.id, []).append(x)
+    changed = [False]
+
+    def rewrite(stmts):
+        out = []
+        i = 0
+        while i < len(stmts):
+            st = stmts[i]
+            for fld in ("body", "orelse", "finalbody"):
+                sub = getattr(st, fld, None)
+                if isinstance(sub, list) and sub and isinstance(sub[0], ast.stmt) and not isinstance(st, (ast.FunctionDef, ast.AsyncFunctionDef, ast.ClassDef)):
+                    setattr(st, fld, rewrite(sub))
+            nxt = stmts[i + 1] if i + 1 < len(stmts) else None
+            if isinstance(st, ast.Assign) and len(st.targets) == 1 and isinstance(st.targets[0], ast.Name) and nxt is not None and isinstance(nxt, (ast.Assign, ast.Expr, ast.Return)):
+                a = st.targets[0].id
+                if len(stores.get(a, [])) == 1 and len(loads.get(a, [])) == 1:
+                    use = loads[a][0]
+                    par = {}
+                    for p_ in ast.walk(nxt):
+                        for c_ in ast.iter_child_nodes(p_):
+                            par[c_] = p_
+                    if use in par:
+                        pu = par[use]
+                        link = (isinstance(pu, ast.Subscript) and pu.value is use) or (isinstance(pu, ast.Attribute) and pu.value is use)
+                        others = [c for c in ast.walk(nxt) if isinstance(c, ast.Call) and not any(y is use for y in ast.walk(c))]
+                        if link and not others and not any(isinstance(y, (ast.Lambda, ast.ListComp, ast.GeneratorExp, ast.DictComp, ast.SetComp)) and any(z is use for z in ast.walk(y)) for y in ast.walk(nxt)):
+                            if isinstance(pu, ast.Subscript):
+                                pu.value = st.value
+                            else:
+                                pu.value = st.value
+                            changed[0] = True
+                            i += 1
+                            continue            # the definition is dropped; nxt (now holding E) is processed on the next turn
+            out.append(st)
+            i += 1
+        return out
+    for _ in range(6):
+        changed[0] = False
+        node.body = rewrite(node.body)
+        if not changed[0]:
+            break
+        stores, loads = {}, {}
+        for x in ast.walk(node):
+            if isinstance(x, ast.Name):
+                (stores if isinstance(x.ctx, (ast.Store, ast.Del)) else loads).setdefault(x.id, []).append(x)
+    ast.fix_missing_locations(node)
+    return node
